@@ -674,6 +674,15 @@ def check_network(ctx, GeoGrid, GeoNetwork, lat, lon, A, directed, wtype,
             want["outaverage_link_distance"] * ref.awc_out(A, cl)
     for name, w in want.items():
         meth, _, gc = name.partition("/")
+        if directed and meth in undirected_family:
+            # The direction-free averages normalise by in+out degree on
+            # directed networks (reciprocal links counted twice).  Whether
+            # that is intended is not settled by the C12 statement (it only
+            # requires the cos-lat weighting), so directed inputs are outside
+            # this oracle; see DESIGN.md "observations outside the
+            # properties".
+            ctx.count("direction_free_measure_on_directed_skipped")
+            continue
         ok, v = ctx.call(getattr(net, meth), **(kwargs if gc else {}))
         ctx.evals()
         if not ok:
@@ -787,6 +796,9 @@ def check_spatial_network(ctx, Grid, SpatialNetwork, X, A, directed, cid):
             "max_link_distance": ref.max_link_distance(Au, D),
             "average_link_distance": ref.avg_link_distance(Au, D)}
     for meth, w in want.items():
+        if directed and meth == "average_link_distance":
+            ctx.count("direction_free_measure_on_directed_skipped")
+            continue
         ok, v = ctx.call(getattr(net, meth))
         ctx.evals()
         if not ok:
